@@ -19,13 +19,79 @@ import (
 	"sort"
 	"strconv"
 	"strings"
+	"sync/atomic"
 	"time"
 
 	"verif/harness/lib"
 )
 
-// a shape is an argv template; "@SCRIPT@" is the script file, "@TEXT@" the script text (-c mode)
+// a shape is an argv template; "@SCRIPT@" is the script file, "@TEXT@" the script text (-c mode).
+// tokOf gives the abstract token of each argument for the Coq model of the command line (Model/Cmdline.v).
 type cmdShape []string
+
+var boolFlags = map[string]bool{"exitonfail": true, "countcalls": true, "i": true, "quiet": true, "trace": true, "demo": true, "no-liner": true}
+var strFlags = map[string]bool{"cpuprofile": true, "memprofile": true, "c": true}
+
+func tokOf(a string) string {
+	if len(a) < 2 || a[0] != '-' {
+		return "P"
+	}
+	name := a[1:]
+	if name[0] == '-' {
+		name = name[1:]
+		if name == "" {
+			return "D"
+		}
+	}
+	if name == "" || name[0] == '-' || name[0] == '=' {
+		return "X"
+	}
+	val, has := "", false
+	if i := strings.IndexByte(name, '='); i >= 0 {
+		name, val, has = name[:i], name[i+1:], true
+	}
+	switch {
+	case name == "sandbox":
+		if !has {
+			return "S"
+		}
+		switch val {
+		case "1", "t", "T", "true", "TRUE", "True":
+			return "S=1"
+		case "0", "f", "F", "false", "FALSE", "False":
+			return "S=0"
+		}
+		return "X"
+	case boolFlags[name]:
+		if has {
+			if _, err := strconv.ParseBool(val); err != nil {
+				return "X"
+			}
+		}
+		return "B"
+	case strFlags[name]:
+		if has {
+			return "VI"
+		}
+		return "V"
+	}
+	return "X"
+}
+
+func (s cmdShape) Toks() string {
+	var t []string
+	for _, a := range s {
+		if a == "@SCRIPT@" || a == "@TEXT@" {
+			t = append(t, "P")
+		} else {
+			t = append(t, tokOf(a))
+		}
+	}
+	return strings.Join(t, " ")
+}
+
+// does the script / text of this command line run at all, according to Go's flag conventions?  (only used to
+// know whether a probe can be expected; the verdict sandboxed / open / rejected comes from the Coq model)
 
 func cmdShapes(tier string, rng *lib.Rng) []cmdShape {
 	sandboxTok := []string{"-sandbox", "--sandbox", "-sandbox=true"}
@@ -58,6 +124,15 @@ func cmdShapes(tier string, rng *lib.Rng) []cmdShape {
 	add([]string{"-c", "@TEXT@", "-sandbox"})
 	add([]string{"-quiet", "-c", "@TEXT@", "-sandbox=true", "-no-liner"})
 	add([]string{"--sandbox", "-c", "@TEXT@", "x", "-quiet"})
+	// controls: command lines that are NOT run under a sandbox flag (the probe must see the difference),
+	// and one the flag package rejects
+	add([]string{"-quiet", "-no-liner", "@SCRIPT@"})
+	add([]string{"-quiet", "@SCRIPT@", "-sandbox"})
+	add([]string{"-sandbox=false", "-quiet", "@SCRIPT@"})
+	add([]string{"-sandbox", "-sandbox=false", "@SCRIPT@", "-sandbox"})
+	add([]string{"-sandbox=false", "--sandbox", "-quiet", "@SCRIPT@", "-sandbox=false"})
+	add([]string{"-c", "@TEXT@"})
+	add([]string{"-sandbox", "-nosuchflag", "@SCRIPT@"})
 	return out
 }
 
@@ -139,12 +214,19 @@ func (r *cmdRunner) canary(shape cmdShape, j Job) JobResult {
 	return JobResult{Effects: o.String(), Class: class, Detail: string(det)}
 }
 
-func (r *cmdRunner) names(shape cmdShape, candidates []string) (defined map[string]bool, ok bool) {
+// probe: ONE process per command line. The script first prints, for every candidate name, whether it is
+// defined (these lines cannot fail), then runs the canary calls of the entries that need no binding, each
+// through eval so that a refusal at compile time ends the script only there.
+func (r *cmdRunner) probe(shape cmdShape, candidates []string, canaries []Job) (defined map[string]bool, ok bool, res []JobResult, code int) {
 	var sb strings.Builder
 	for i, n := range candidates {
 		sb.WriteString("(cond (defined? " + quoteZ(n) + ") (println \"c08-name " + strconv.Itoa(i) + " true\") (println \"c08-name " + strconv.Itoa(i) + " false\"))\n")
 	}
-	out, _, _ := r.run(shape, sb.String(), 60*time.Second)
+	for i, j := range canaries {
+		sb.WriteString("(println \"c08-canary " + strconv.Itoa(i) + "\")\n")
+		sb.WriteString("(println (str (eval (quote " + subst(j.Script, r.can) + "))))\n")
+	}
+	out, code, timedOut := r.run(shape, sb.String(), 60*time.Second)
 	defined = map[string]bool{}
 	seen := 0
 	for _, ln := range strings.Split(out, "\n") {
@@ -159,81 +241,216 @@ func (r *cmdRunner) names(shape cmdShape, candidates []string) (defined map[stri
 			}
 		}
 	}
-	return defined, seen == len(candidates)
+	// the canaries share the process: text effects are attributed to the canary whose marker precedes them,
+	// file effects to the whole group (they are all calls of binding-free entries)
+	rest := out
+	if k := strings.Index(rest, "c08-canary 0"); k >= 0 {
+		rest = rest[k:]
+	} else {
+		rest = ""
+	}
+	fe, fd := r.can.ObserveFiles()
+	for i := range canaries {
+		seg := rest
+		if k := strings.Index(rest, "c08-canary "+strconv.Itoa(i+1)); k >= 0 {
+			seg, rest = rest[:k], rest[k:]
+		} else {
+			rest = ""
+		}
+		o := &obs{effects: map[string]bool{}}
+		o.add(r.can.ObserveText(seg))
+		o.add(fe, fd...)
+		class := "cmdline"
+		if timedOut {
+			class = "hang"
+		}
+		det, _ := json.Marshal(o.detail)
+		res = append(res, JobResult{Effects: o.String(), Class: class, Detail: string(det)})
+	}
+	r.can.Install()
+	return defined, seen == len(candidates) && !timedOut, res, code
 }
 
 type cmdlineDiff struct {
 	Argv       string   `json:"argv"`
+	Toks       string   `json:"toks"`
+	Observed   string   `json:"observed"` // sandboxed | open | rejected | mixed
 	Unexpected []string `json:"unexpected"` // defined under this command line, not bound in the sandbox + StandardSetup
 	Missing    []string `json:"missing"`
 	ProbeOK    bool     `json:"probe_ok"`
 }
 
 // runCmdlines appends its jobs (with results) to jobs/results and returns the name differences.
-func runCmdlines(root, zygoBin, tier string, rng *lib.Rng, candidates, specials []string, expected map[string]string,
-	jobs *[]Job, results map[int]JobResult, stats map[string]int) []cmdlineDiff {
-	dir := filepath.Join(root, "cmdline")
-	os.MkdirAll(dir, 0755)
-	can := NewCanary(filepath.Join(dir, "world"), "C1")
-	os.MkdirAll(can.Dir, 0755)
-	if err := can.Install(); err != nil {
-		panic(err)
-	}
-	r := &cmdRunner{zygoBin: zygoBin, dir: dir, can: can, stats: stats}
-	var diffs []cmdlineDiff
-	addJob := func(shape cmdShape, j Job) {
-		j.ID = len(*jobs) + 1
-		j.Cfg = "bin"
-		j.Argv = shape
-		j.Tags = append(j.Tags, "cmdline")
-		res := r.canary(shape, j)
-		*jobs = append(*jobs, j)
-		results[j.ID] = res
-	}
+func runCmdlines(root, zygoBin, tier string, rng *lib.Rng, candidates, specials []string, expected, open map[string]string, likely map[string]bool,
+	jobs *[]Job, results map[int]JobResult, stats map[string]int) (diffs []cmdlineDiff, all []cmdlineDiff) {
+	shapes := cmdShapes(tier, rng)
 	unsafe := func(n string) bool {
 		return strings.ContainsAny(n, " \t\n()[]{}\"';`~^") || n == "" || n == "&" || n == "." || n == ":"
 	}
-	for _, shape := range cmdShapes(tier, rng) {
-		stats["cmdline_shapes"]++
-		// (1) names
-		def, ok := r.names(shape, candidates)
-		d := cmdlineDiff{Argv: shape.String(), ProbeOK: ok}
-		if ok {
-			for _, n := range candidates {
-				_, exp := expected[n]
-				if def[n] && !exp {
-					d.Unexpected = append(d.Unexpected, n)
-				}
-				if !def[n] && exp && expected[n] != "macro" {
-					d.Missing = append(d.Missing, n)
-				}
-			}
-		}
-		sort.Strings(d.Unexpected)
-		if !ok || len(d.Unexpected) > 0 || len(d.Missing) > 0 {
-			diffs = append(diffs, d)
-		}
-		// (2) canaries: the entries that need no binding, with the shapes that matter ...
-		for _, sf := range specials {
-			if sf == "include" || !knownPureSpecial[sf] {
-				for _, sh := range [][]string{{aSecret}, {aArr}} {
-					addJob(shape, forms("bin", "special", sf, sh, false)[0])
-				}
-			}
-		}
-		// ... and every name that should not be there (at most 8 per command line)
-		k := 0
-		for _, n := range d.Unexpected {
-			if unsafe(n) || k >= 8 {
-				continue
-			}
-			k++
-			for _, sh := range quickShapes() {
-				addJob(shape, forms("bin", "unbound", n, sh, false)[0])
+	// canaries of the binding-free entries: include, and every special form the list below does not know
+	var canaries []Job
+	for _, sf := range specials {
+		if !knownPureSpecial[sf] {
+			for _, sh := range [][]string{{aSecret}, {aArr}} {
+				j := forms("bin", "special", sf, sh, false)[0]
+				j.Form = "cmdline-eval"
+				j.Abs = "(e " + j.Abs + ")"
+				canaries = append(canaries, j)
 			}
 		}
 	}
-	return diffs
+	type shapeOut struct {
+		all    cmdlineDiff
+		diff   *cmdlineDiff
+		jobs   []Job
+		res    []JobResult
+		nprocs int
+	}
+	outs := make([]shapeOut, len(shapes))
+	var confirmed int32
+	const par = 6
+	sem := make(chan int, par)
+	for w := 0; w < par; w++ {
+		sem <- w
+	}
+	done := make(chan bool, len(shapes))
+	for si := range shapes {
+		w := <-sem
+		go func(si, w int) {
+			defer func() { sem <- w; done <- true }()
+			shape := shapes[si]
+			dir := filepath.Join(root, "cmdline"+strconv.Itoa(w))
+			os.MkdirAll(dir, 0755)
+			can := NewCanary(filepath.Join(dir, "world"), "C"+strconv.Itoa(w))
+			os.MkdirAll(can.Dir, 0755)
+			if err := can.Install(); err != nil {
+				panic(err)
+			}
+			st := map[string]int{}
+			r := &cmdRunner{zygoBin: zygoBin, dir: dir, can: can, stats: st}
+			def, ok, cres, code := r.probe(shape, candidates, canaries)
+			o := &outs[si]
+			for i, j := range canaries {
+				j.Argv = shape
+				j.Cfg = "bin"
+				if modelSaysSandboxed(shape) != "yes" {
+					// control command line: the canaries are expected to work (checks/c08.py verifies this label
+					// against the Coq model's verdict for the same command line)
+					j.Cfg = "full"
+				}
+				j.Script = "(eval (quote " + j.Script + "))"
+				j.Tags = append(append([]string{}, j.Tags...), "cmdline")
+				o.jobs = append(o.jobs, j)
+				o.res = append(o.res, cres[i])
+			}
+			d := cmdlineDiff{Argv: shape.String(), Toks: shape.Toks(), ProbeOK: ok}
+			if ok {
+				for _, n := range candidates {
+					_, exp := expected[n]
+					if def[n] && !exp {
+						d.Unexpected = append(d.Unexpected, n)
+					}
+					if !def[n] && exp && expected[n] != "macro" {
+						d.Missing = append(d.Missing, n)
+					}
+				}
+			}
+			sort.Strings(d.Unexpected)
+			// what kind of interpreter ran the probe?
+			switch {
+			case !ok && code == 2 && len(def) == 0:
+				d.Observed = "rejected"
+			case !ok:
+				d.Observed = "mixed"
+			case len(d.Unexpected) == 0 && len(d.Missing) == 0:
+				d.Observed = "sandboxed"
+			default:
+				d.Observed = "open"
+				for n := range open {
+					if !def[n] && open[n] != "macro" && !unsafe(n) {
+						d.Observed = "mixed"
+					}
+				}
+			}
+			o.all = d
+			if d.Observed != "sandboxed" && strings.Contains(modelSaysSandboxed(shape), "yes") {
+				o.diff = &d
+			}
+			// names that should not be there are called with canary arguments: the ones the tables consider
+			// effectful first, three telling argument shapes each, until one call shows an effect; once 3 command
+			// lines have a confirmed script the remaining ones only report their name differences
+			order := append([]string{}, d.Unexpected...)
+			if modelSaysSandboxed(shape) != "yes" {
+				order = nil
+			}
+			sort.SliceStable(order, func(a, b int) bool { return likely[order[a]] && !likely[order[b]] })
+			k := 0
+			hit := false
+			for _, n := range order {
+				if unsafe(n) || k >= 30 || hit || atomic.LoadInt32(&confirmed) >= 3 {
+					continue
+				}
+				k++
+				for _, sh := range [][]string{{aSecret}, {aCmd}, {aEnv}} {
+					j := forms("bin", "unbound", n, sh, false)[0]
+					j.Argv = shape
+					j.Tags = append(j.Tags, "cmdline")
+					res := r.canary(shape, j)
+					o.jobs = append(o.jobs, j)
+					o.res = append(o.res, res)
+					if res.Effects != "-" {
+						hit = true
+						atomic.AddInt32(&confirmed, 1)
+						break
+					}
+				}
+			}
+			o.nprocs = st["binary_processes"]
+		}(si, w)
+	}
+	for range shapes {
+		<-done
+	}
+	for _, o := range outs {
+		all = append(all, o.all)
+		stats["cmdline_shapes"]++
+		stats["binary_processes"] += o.nprocs
+		if o.diff != nil {
+			diffs = append(diffs, *o.diff)
+		}
+		for i, j := range o.jobs {
+			j.ID = len(*jobs) + 1
+			*jobs = append(*jobs, j)
+			results[j.ID] = o.res[i]
+		}
+	}
+	return diffs, all
+}
+
+// modelSaysSandboxed is only a scheduling hint (which command lines get follow-up canary calls when names that
+// should not be there are defined): the flag part leaves the sandbox flag on. The verdict is the Coq model's.
+func modelSaysSandboxed(shape cmdShape) string {
+	on := false
+	toks := strings.Fields(shape.Toks())
+	for i := 0; i < len(toks); i++ {
+		switch toks[i] {
+		case "S", "S=1":
+			on = true
+		case "S=0":
+			on = false
+		case "B", "VI":
+		case "V":
+			i++
+		case "X":
+			return "rejected"
+		default:
+			i = len(toks)
+		}
+	}
+	if on {
+		return "yes"
+	}
+	return "no"
 }
 
 // special forms that are flow control / definition syntax: calling them with a canary path proves nothing
